@@ -17,6 +17,7 @@
   counting proxy around the evaluator).
 -/
 import VotelibModel.Core
+import VotelibModel.Py
 import VotelibModel.HighestAverages
 namespace VL.OH
 open VL
@@ -68,9 +69,25 @@ def distToSeats : Dist → Option Seats
 
 /-! ### the two proportional evaluators used by the harness -/
 
-/-- `HighestAverages(div).evaluate` — the C01 model -/
+def insNat (x : Nat) : List Nat → List Nat
+  | [] => [x]
+  | y :: ys => if x ≤ y then x :: y :: ys else y :: insNat x ys
+
+def sortNat : List Nat → List Nat
+  | [] => []
+  | x :: xs => insNat x (sortNat xs)
+
+/-- a `Tie` is a frozenset: two ties are the same key iff they have the same members.  The evaluator models
+    list the members in pool order, so keys are compared after sorting the members. -/
+def normKey : Key → Key
+  | .cand c => .cand c
+  | .tie cs => .tie (sortNat cs)
+
+def normDist (d : Dist) : Dist := d.map (fun p => (normKey p.1, p.2))
+
+/-- `HighestAverages(div).evaluate` — the C01 model (Tie keys canonicalised) -/
 def haEval (div : Nat → Rat) : PropEval := fun votes n prev caps =>
-  highestAverages { div := div, votes := votes, n := n, prev := prev, caps := caps }
+  (highestAverages { div := div, votes := votes, n := n, prev := prev, caps := caps }).map normDist
 
 /-- `QuotaDistributor('hare').evaluate(votes, n, prev_gains)` (proportional.py L221-273) with
     `accept_equal=True`, `on_overaward='error'`, no `max_seats`:  whole Hare quotas beyond the previous gains.
@@ -84,7 +101,7 @@ def hareQuotaSeats (votes : Votes) (n : Nat) (prev : Seats) : Except Err Seats :
     let sel ← acc
     if q < p.2 ∨ p.2 = q then
       if q = 0 then .error zeroDiv else
-      let whole : Int := if 0 ≤ p.2 / q then (p.2 / q).floor else (p.2 / q).ceil
+      let whole : Int := Py.pyInt (p.2 / q)
       let add : Int := whole - (natLookup prev p.1 0 : Nat)
       if 0 < add then
         if (n : Int) < whole then .error unmodelled
@@ -109,7 +126,7 @@ def lrHareEval : PropEval := fun votes n prev caps =>
   pure (best.foldl (fun acc s =>
     match s with
     | .cand c => setK acc (.cand c) (distGet acc (.cand c) + 1)
-    | .tie cs => setK acc (.tie cs) (distGet acc (.tie cs) + 1)) qd)
+    | .tie cs => setK acc (.tie (sortNat cs)) (distGet acc (.tie (sortNat cs)) + 1)) qd)
 
 /-! ### AllowOverhang -/
 
@@ -167,8 +184,8 @@ def levelOverhang (ev : PropEval) (fuel : Nat) (votes : Votes) (n : Nat) (prev c
 abbrev Calc := Votes → Nat → Seats → Seats → Except Err Nat
 
 /-- `AdjustedSeatCount(calc, ev).evaluate(votes, n_seats, prev_gains, max_seats)` (core.py L493-518) -/
-def adjustedSeatCount (calc : Calc) (ev : PropEval) : PropEval := fun votes n prev caps => do
-  let adj ← calc votes n prev caps
+def adjustedSeatCount (calcr : Calc) (ev : PropEval) : PropEval := fun votes n prev caps => do
+  let adj ← calcr votes n prev caps
   ev votes (n + adj) prev caps
 
 /-- `MultistageDistributor(rounds).evaluate(votes_per_round, n_seats, prev_gains, max_seats)` with depth 1
